@@ -494,7 +494,11 @@ pub fn eval(expr: Node) -> Result<Number, Box<dyn error::Error>> {
                                 Number::Float(f) => f,
                                 Number::Integer(i) => i as f64,
                             };
-                            if lf64 < rf64 {
+                            let keep_left = match (&l, &r) {
+                                (Number::Integer(a), Number::Integer(b)) => a < b,
+                                _ => lf64 < rf64,
+                            };
+                            if keep_left {
                                 result = Some(l);
                             } else {
                                 result = Some(r);
@@ -528,7 +532,11 @@ pub fn eval(expr: Node) -> Result<Number, Box<dyn error::Error>> {
                                 Number::Float(f) => f,
                                 Number::Integer(i) => i as f64,
                             };
-                            if lf64 > rf64 {
+                            let keep_left = match (&l, &r) {
+                                (Number::Integer(a), Number::Integer(b)) => a > b,
+                                _ => lf64 > rf64,
+                            };
+                            if keep_left {
                                 result = Some(l);
                             } else {
                                 result = Some(r);
